@@ -28,7 +28,7 @@ func (it Item) Label() string {
 }
 
 func rawItem(kind string, tree *jt.Node, i int) Item {
-	st := []jt.Style{jt.Plain, jt.Plain, jt.GoLike, jt.Unicode}[i%4]
+	st := []jt.Style{jt.Plain, jt.Plain, jt.GoLike, jt.Unicode, jt.Spaced}[i%5]
 	return Item{Tree: tree, Raw: tree.Bytes(st), Kind: kind}
 }
 
@@ -55,7 +55,7 @@ func Vocabulary(s *sut.SUT, c *ev.Check) []string {
 }
 
 func mkItem(cs *gen.Case, i int) Item {
-	st := []jt.Style{jt.Plain, jt.Plain, jt.GoLike, jt.Unicode}[i%4]
+	st := []jt.Style{jt.Plain, jt.Plain, jt.GoLike, jt.Unicode, jt.Plain, jt.Spaced, jt.GoLike}[i%7]
 	return Item{Case: cs, Tree: cs.Line, Raw: cs.Line.Bytes(st)}
 }
 
